@@ -95,3 +95,15 @@ Record sort_params := mk_sort_params {
 (* what the refinement theorems need the code to say *)
 Definition good_params : sort_params :=
   mk_sort_params RangeDown RangeDown 1 true RangeDown RangeDown RangeDown RangeDown true true true.
+
+(* ---- grow-only hierarchical indices: when are the cached per-depth arrays refreshed?
+   (IndexHierarchy.values_at_depth: `if <cond>: self._update_array_cache()`) ---- *)
+Inductive refresh_cond := RefreshOnRecache | RefreshOnMissingTable | RefreshNever.
+
+Record cache_params := mk_cache_params {
+  cp_vad_refresh : refresh_cond;      (* the condition in IndexHierarchy.values_at_depth *)
+  cp_append_sets_recache : bool;      (* IndexHierarchyGO.append: self._recache = True *)
+  cp_extend_sets_recache : bool       (* IndexHierarchyGO.extend: self._recache = True *)
+}.
+
+Definition good_cache_params : cache_params := mk_cache_params RefreshOnRecache true true.
